@@ -209,7 +209,7 @@ def tlc_trace_validate(ctx, module, cfg, trace_path, timeout=600, tag=None, extr
     if extra_env:
         env.update(extra_env)
     return tlc(ctx, module, cfg=cfg, workers=1, env=env, timeout=timeout, xmx="4g",
-               deadlock=False, tag=tag)
+               deadlock=True, tag=tag)
 
 
 # ----------------------------------------------------------------------------- verdicts
